@@ -16,7 +16,7 @@ TECH = {
  "C03": "static analysis: six-stage chain analysis of the assignment operators, reset/push set extraction, alias rules, value-flow analysis of the rewriting traversals (F-WRITEBACK), with-exit rule, mirror rule of the if/else merge",
  "C04": "static analysis: guard analysis of the reset wrappers, polarity evaluation on the two-point domain, truth-table evaluation of derived resets, admission condition and expansion of the reset set, default/noreset propagation rules",
  "C05": "static analysis: front-end guard matrix extraction, 81-case abstract evaluation of format_cast typed against numeric_std, trial-assignment direction rules, join rules incl. call sites, " + AI + " of the bool literal twins, shadowed-kind-test lint over the package",
- "C06": "static analysis: reserved-word/vocabulary tables against IEEE 1076-2008, tokenised template balance, name allocation rule, others/sensitivity rules, buffer/alias-scope rules, cast matrix, operand-visit and shadowed-kind-test lints",
+ "C06": "static analysis: reserved-word/vocabulary tables against IEEE 1076-2008, tokenised template balance, name allocation rule, others/sensitivity rules, buffer/alias-scope rules, cast matrix, operand-visit, stateless-traversal and shadowed-kind-test lints, lexical-context lint for Python strings copied into comments and string literals, distinct-choice rules",
  "C07": "static analysis: IR access flags vs. assembler roles (F-ROLE), guard analysis of the usage check, view rules incl. " + AI + " of slice offsets, value-flow of rewriting traversals, name allocation and buffer rules",
  "C08": "static analysis: abstract interpretation of search_invalid_temporaries over a Venn-region universe of definition sets (sa/regionsets.py), guard analysis of the temporary checks, ordering rules of the passes, write-back / ref-spec / state-root rules",
  "C09": "static analysis: sibling diff Unsigned<->Signed, all-integer sign/exactness domain for truncating division with operand-role resolution, documented width table, literal-range formulas, cast matrix, " + AI + " of multi-index selection and run-time resize",
